@@ -5,6 +5,7 @@ from __future__ import annotations
 from .. import families as F
 from .. import impl
 from ..core import Res
+from ..refmodel import Ref
 from . import _disp
 
 PROPERTY = "C02"
@@ -35,7 +36,7 @@ def cases(tier, seed):
     out += [("tree", spec) for spec in F.K3r()]
     if tier == "quick":
         out += [("tree", s) for s in F.sliced(F.K4(), seed % 16, 16)]
-        out += [("tree", s) for s in F.P_ALL]
+        out += [("tree", s) for s in F.P_ALL + F.P_HUGE]
         out.append(("tlc", 0))
     else:
         out += [("tree", s) for s in F.K4()]
@@ -191,8 +192,15 @@ def run_case(case) -> Res:
         other = Dispatcher(live.inst)
         # drive it somewhere else first: the leftmost complete history prefix
         left = next(ref.all_histories())
-        for c in left[: max(1, len(hist))]:
+        right = rightmost
+        for c in (right if len(hist) % 2 else left)[: max(1, len(hist))]:
             impl.dispatch(other, *c)
+        if len(hist) % 3 != 2:
+            # queried once, at the same number of dispatches as the replay below
+            # will reach: anything memoised per count / per state must not leak
+            full_snapshot(other)
+            other.current_time()
+            other.available_operations()
         other.reset()
         steps_reset = []
         for s in recorded:
@@ -215,5 +223,6 @@ def run_case(case) -> Res:
             res.sample({"spec": spec, "history": hist, "schedule(op,start,machine)": snap})
         return None
 
+    rightmost = list(Ref(spec).all_histories())[-1]
     _disp.explore(res, spec, (), visit, check, make_extra=make_extra)
     return res
